@@ -25,4 +25,31 @@ def diffLine (ts : List String) : String :=
     | _, _, _, _ => "bad-op"
   | _ => "bad-op"
 
+/-- `DIFFX <zip> <thrNum> <thrDen> <ignorePrivate> <verbose> E <k> <paths…> R <k> <paths…> I <k> <paths…> <t1> <t2>` -/
+def diffxLine (ts : List String) : String :=
+  let takeStrs (k : Nat) (ts : List String) : Option (List String × List String) :=
+    if ts.length < k then none else ((ts.take k).mapM Wire.decStr).map (fun xs => (xs, ts.drop k))
+  match ts with
+  | z :: tn :: td :: ip :: vb :: "E" :: ke :: rest =>
+    match tn.toNat?, td.toNat?, vb.toNat?, ke.toNat? with
+    | some tn, some td, some vb, some ke =>
+      match takeStrs ke rest with
+      | some (ex, "R" :: kr :: rest) =>
+        match kr.toNat? >>= (fun kr => takeStrs kr rest) with
+        | some (rx, "I" :: ki :: rest) =>
+          match ki.toNat? >>= (fun ki => takeStrs ki rest) with
+          | some (inc, rest) =>
+            match parseVals 2 rest with
+            | some ([a, b], []) =>
+              let cfg : DCfg := { zip := z == "T", thrNum := tn, thrDen := td, ignorePrivate := ip == "T",
+                                  exclude := ex, excludePrefix := rx, incl := inc }
+              let r := deepDiff cfg difflibOpcodes hashForDiff a b
+              showEntries (textView vb r.tree) ++ " OPS " ++ showOps r
+            | _ => "bad-op"
+          | _ => "bad-op"
+        | _ => "bad-op"
+      | _ => "bad-op"
+    | _, _, _, _ => "bad-op"
+  | _ => "bad-op"
+
 end Diff
